@@ -310,6 +310,12 @@ MsgLoop:
 				return
 			}
 			continue MsgLoop
+		default:
+			// Frame types 3-7 are reserved. There is no message to deliver;
+			// this is a protocol error that ends the connection.
+			rs.log.Print("Received frame of reserved type, closing")
+			_ = rs.conn.Close()
+			return
 		}
 
 		// It is OK for the router to block a client since routing should be
